@@ -859,8 +859,22 @@ impl Scenario for Ns {
                 }
             }
         }
+        let mut check_comments = 0;
+        if rng.chance(1, 8) {
+            // recoverable failures in between: with comment checking on, a comment with "--"
+            // inside makes that one read fail (IllFormed) and reading goes on after it; the
+            // scopes must be the same as if the comment were not there
+            check_comments = CFG_CHECK_COMMENTS;
+            let first = p.toks.iter().position(|t| matches!(t.k, TK::Start | TK::Empty)).unwrap_or(0);
+            for _ in 0..rng.range(1, 3) {
+                let at = rng.range(first + 1, p.toks.len().max(first + 1));
+                let body = *rng.pick(&[" x -- y ", "--", "a--b", " -"]);
+                p.toks.insert(at.min(p.toks.len()), Tok::new(TK::Comment, format!("<!--{}-->", body)));
+            }
+            p.note.push_str(" ill-formed comments under check_comments");
+        }
         p.sync_doc();
-        p.cfg = CFG_DEFAULT | if rng.bool() { CFG_EXPAND_EMPTY } else { 0 };
+        p.cfg = CFG_DEFAULT | check_comments | if rng.bool() { CFG_EXPAND_EMPTY } else { 0 };
         p.reader = ReaderKind::Ns;
         p.stream = gen_hist_stream(rng, &p.doc, 3);
         let n_ops = rng.range(2, 2 * p.toks.len() + 2);
@@ -910,6 +924,16 @@ impl Scenario for Ns {
                 }
             }
         }
+        // a comment that fails under check_comments: "--" in its body, or a body ending in '-'
+        let checking = plan.cfg & CFG_CHECK_COMMENTS != 0;
+        let bad_comment = |t: &Tok| -> bool {
+            if !checking || t.k != TK::Comment || t.raw.len() < 7 {
+                return false;
+            }
+            let body = &t.raw[4..t.raw.len() - 3];
+            body.windows(2).any(|w| w == b"--") || body.last() == Some(&b'-')
+        };
+        let mut recovered = 0u64;
         let mut skips = 0u64;
         let mut reserved_checks = 0u64;
         let mut nil_checks = 0u64;
@@ -951,6 +975,12 @@ impl Scenario for Ns {
                     let name = toks[t].name.as_bytes().to_vec();
                     let r = if matches!(op, Op::ReadText) { rd.read_text(&name).unwrap().map(|_| ()) } else { rd.skip(&name).map(|_| ()) };
                     if let Err(e) = r {
+                        let upto = if toks[t].k == TK::Empty { ti } else { mt[t].unwrap_or(toks.len()) };
+                        if toks[ti.min(upto)..upto].iter().any(|x| bad_comment(x)) && matches!(e, Error::IllFormed(IllFormedError::DoubleHyphenInComment)) {
+                            // the skipped content holds an ill-formed comment: the call fails by
+                            // design and nothing is said about the scopes after a failed skip
+                            return;
+                        }
                         v.push(Violation::new("C05", "skip-failed", format!("op {}: skipping <{}> failed: {:?}", oi, toks[t].name, e)));
                         return;
                     }
@@ -969,6 +999,8 @@ impl Scenario for Ns {
                         Empty(usize),
                         End(String),
                         Other,
+                        /// a comment that makes this one read fail; reading goes on after it
+                        BadComment,
                         Eof,
                     }
                     let want = if let Some(h) = half.take() {
@@ -989,6 +1021,7 @@ impl Scenario for Ns {
                                 }
                             }
                             TK::End => Want::End(toks[t].name.clone()),
+                            _ if bad_comment(&toks[t]) => Want::BadComment,
                             _ => Want::Other,
                         }
                     };
@@ -1017,8 +1050,19 @@ impl Scenario for Ns {
                         }
                         return; // nothing is promised about the state after the error
                     }
+                    if matches!(want, Want::BadComment) {
+                        match &ev {
+                            Err(Error::IllFormed(IllFormedError::DoubleHyphenInComment)) => recovered += 1,
+                            other => {
+                                v.push(Violation::new("C05", "event-desync", format!("op {}: model expects the ill-formed comment to fail this read, reader returned {:?}", oi, other)));
+                                return;
+                            }
+                        }
+                    }
                     let ev = match ev {
                         Ok(e) => e,
+                        // the failed read changed nothing: the probes below see the same scopes
+                        Err(_) if matches!(want, Want::BadComment) => Event::Comment(quick_xml::events::BytesText::new("")),
                         Err(e) => {
                             v.push(Violation::new("C05", "unexpected-error", format!("op {}: well-formed document, model expects {:?}, reader returned {:?}", oi, want, e)));
                             return;
@@ -1053,6 +1097,7 @@ impl Scenario for Ns {
                             (true, Some(n.clone()))
                         }
                         (Want::Other, Event::Text(_) | Event::Comment(_) | Event::CData(_) | Event::PI(_) | Event::Decl(_) | Event::DocType(_)) => (true, None),
+                        (Want::BadComment, _) => (true, None),
                         (Want::Eof, Event::Eof) => (true, None),
                         _ => (false, None),
                     };
@@ -1099,7 +1144,7 @@ impl Scenario for Ns {
                             nil_true += 1;
                         }
                     }
-                    if resolved {
+                    if resolved && !matches!(want, Want::BadComment) {
                         let want_res = match &elem_name {
                             Some(n) => model_resolve(&stack, prefix_of(n), false),
                             None => Res::Unbound,
@@ -1170,6 +1215,7 @@ impl Scenario for Ns {
         st.add("op.skip", skips);
         st.add("op.skip_after_children_were_read", mid_skips);
         st.add("model.reserved_prefix_errors_checked", reserved_checks);
+        st.add("model.reads_failed_on_ill_formed_comment_and_went_on", recovered);
         st.add("model.has_nil_checked", nil_checks);
         st.add("model.has_nil_true", nil_true);
         st.bump(&format!("source.{}", plan.stream.kind.name()));
@@ -1240,10 +1286,16 @@ impl Scenario for Nest {
         if rng.chance(1, 12) {
             p.note = format!("stretched: {}", stretch_tokens(rng, &mut toks, false));
         }
-        if rng.chance(1, 100) {
+        let deep = rng.chance(1, 4000);
+        if deep || rng.chance(1, 100) {
             // many simultaneously open elements with long names: the shared name buffer
-            // grows past 64 KiB before the generated tokens are judged
-            let (d, l) = *rng.pick(&[(70usize, 1000usize), (300, 230), (40, 1700)]);
+            // grows past 64 KiB before the generated tokens are judged; rarely, more than
+            // 4096 open elements with one-byte names (depth counters, depth caps)
+            if deep {
+                // (few inner tokens: every ambiguous step copies the candidate stacks)
+                toks.truncate(6);
+            }
+            let (d, l) = if deep { (*rng.pick(&[4100usize, 4200, 5000]), 0usize) } else { *rng.pick(&[(70usize, 1000usize), (300, 230), (40, 1700)]) };
             let name = format!("w{}", "n".repeat(l));
             let mut pre: Vec<Tok> = (0..d)
                 .map(|_| Tok { k: TK::Start, raw: format!("<{}>", name).into_bytes(), name: name.clone(), attrs: vec![] })
@@ -1489,7 +1541,19 @@ impl Scenario for Nest {
                                     oi,
                                     String::from_utf8_lossy(&t.raw),
                                     cfg_text(cfg),
-                                    cands.iter().take(4).map(|c| c.iter().map(|i| lossy_short(&String::from_utf8_lossy(&interned[*i as usize]))).collect::<Vec<_>>()).collect::<Vec<_>>(),
+                                    cands
+                                        .iter()
+                                        .take(4)
+                                        .map(|c| {
+                                            // innermost six names, the depth for the rest
+                                            let tail: Vec<String> = c.iter().skip(c.len().saturating_sub(6)).map(|i| lossy_short(&String::from_utf8_lossy(&interned[*i as usize]))).collect();
+                                            if c.len() > 6 {
+                                                format!("[… {} more, {}]", c.len() - 6, tail.join(", "))
+                                            } else {
+                                                format!("[{}]", tail.join(", "))
+                                            }
+                                        })
+                                        .collect::<Vec<_>>(),
                                     expectations,
                                     got.short()
                                 ),
